@@ -12,7 +12,7 @@ META = {
     "harness_bins": ["c19"],
     "extract": "C19.v",
     "technique": "Coq proof: invariant of a FileId-level model of nls' World bookkeeping (source cache, analysis registry, imports/rev_imports, failed_imports, invalidate/typecheck recursion) over every didOpen/didChange/didClose history; model tied to the real `nls` binary by differential replay of histories over JSON-RPC (per-step diagnostics publications), and a direct oracle comparing every answer with a freshly started server",
-    "level_text": "Theorems (coq/Props/C19.v) are about a hand-written, step-by-step model of World::{add_file,update_file,close_file,invalidate,parse,typecheck,typecheck_uncached} and the open/change/close handlers, with HashMap iteration order as a parameter. The model is tied to lsp/nls by running the same histories on the extracted model and on the `nls` binary rebuilt from /repo (JSON-RPC, background evaluation off) and comparing the multiset of publishDiagnostics of every step; independently every history is followed by a fresh server shown the final documents and pulled diagnostics, hover, definition, references, completion and documentSymbol at every identifier are compared (direct oracle).",
+    "level_text": "Theorems (coq/Props/C19.v), for every didOpen/didChange/didClose history of a conforming client whose documents' imports respect one DAG order, every iteration order of the server's hash maps and every recursion budget above the DAG depth: the server model never crashes (C19_no_crash); every cached analysis of a current file was computed from the current text and its diagnostics equal those recomputed from the final documents (C19_analysis_fresh); two histories ending in the same documents leave the same analyses and every open document has one (C19_answers_history_independent, C19_open_analysed); rev_imports/failed_imports cover what cached analyses read (C19_rev_imports_complete, C19_failed_imports_complete); last published diagnostics of current files are the fresh ones and every open document is published (C19_no_dup_no_stale: for the code with the proposed close_file patch, and for the code as it is on histories without didClose). Refuted for the code as it is, with replayed witnesses: C19_closed_buffer_refuted, C19_cycle_order_refuted, C19_self_import_diverges. The theorems are about a hand-written FileId-level model of SourceCache + World::{add_file,update_file,close_file,invalidate,parse,typecheck,typecheck_uncached} + the notification handlers; it is tied to lsp/nls by running the same histories on the extracted model and on the `nls` binary rebuilt from /repo (JSON-RPC, background evaluation off), comparing the multiset of publishDiagnostics of every step (and the whole bookkeeping state when hook H8 is present); independently every history is followed by a fresh server shown the final documents, and pulled diagnostics, hover, definition, references, completion and documentSymbol at every identifier are compared (direct oracle).",
     "level_note": "Trusted: Coq kernel; extraction (ExtrOcamlBasic only); the reading of world.rs/cache.rs in coq/Lsp/World.v (document contents abstracted to import list + ok/type error/parse error; one directory; disk fixed during a history; Nickel files only); harness bin c19 and its document template. Not modelled: contents of hover/definition/references/completion answers (direct oracle only), background evaluation, non-Nickel imports, contract configs, file watcher, disk changes during a session.",
 }
 
@@ -270,7 +270,7 @@ def detect_cfg(ck, exe_nls, exe_model):
 
 
 def run_cases(ck, cases, exe_nls, exe_model, cfg=None):
-    cfg = cfg or detect_cfg(ck, exe_nls, exe_model)
+    cfg = cfg or os.environ.get("VERIF_C19_FORCE_CFG") or detect_cfg(ck, exe_nls, exe_model)
     hooks = nls_has_hooks()
     rc1, impl_out, e1 = core.run_sharded(core.harness_bin("c19"), [exe_nls] + (["--state"] if hooks else []), cases, timeout=3400)
     rc2, model_out, e2 = core.run_sharded(exe_model, [cfg, "state"], cases)
@@ -366,6 +366,8 @@ def run(ck):
     cases = corpus()
     ncorp = len(cases)
     n = 1200 if ck.tier == "quick" else 30000
+    if os.environ.get("VERIF_C19_N"):            # only for sanity-testing the check itself (mutants)
+        n = int(os.environ["VERIF_C19_N"])
     for i in range(n):
         mode = "dag" if rng.chance(7, 10) else "free"
         long_ = rng.chance(1, 8)
